@@ -136,7 +136,8 @@ func execMaxsat(env Env, t *world.TaskSpec, out *Outcome) {
 				out.fail("C04", "verdict", "answered unsatisfiable, the hard constraints are satisfiable (optimum %d): %s", min, softStr(t))
 			}
 			if cost != -1 {
-				out.fail("C04", "unsat-cost", "nil model with cost %d", cost)
+				// neither the property nor the documentation says what cost comes with a nil model
+				out.probe("maxsat-unsat-cost-not-minus-one")
 			}
 			return
 		}
